@@ -337,6 +337,10 @@ class Exit1(Exception):
     pass
 
 
+class SymlinkError(Exception):
+    pass
+
+
 class Modifier(object):
     def __init__(self, modifier, filename):
         self.modifier = modifier
@@ -505,7 +509,7 @@ def symlink_error(m):
     if m.filename == Filename.STDIN:
         return symlink_follow(m)
     if m.filename.islink:
-        raise SystemExit("""\
+        raise SymlinkError("""\
 Error: %s appears to be a symlink. Use one of the following options to allow symlinks:
 %s
 """ % (m.filename, indent(symlinks_help, '    ')))
